@@ -31,3 +31,11 @@ func UFBool(name string, args ...any) bool
 func UFBytes(name string, n int, args ...any) []byte
 func Unsupported(msg string)
 func Steps() int
+
+// AnyOf / AllOf: non-short-circuit disjunction / conjunction (one term, no fork).
+func AnyOf(bs ...bool) bool
+func AllOf(bs ...bool) bool
+
+// Ite: value-level conditional without a branch.
+func IteInt(c bool, a, b int) int
+func Debug(tag string, v any)
